@@ -69,7 +69,7 @@ public:
 	static constexpr uint64_t emask    = 0x0000'0000'0000'7FFFull; // mask for the top half
 	static constexpr uint64_t eallset  = 0x7FFF;
 	static constexpr int      fbits    = 63;
-	static constexpr uint64_t hmask    = 0x8000'0000'0000'0001ull; // mask for the bottom half
+	static constexpr uint64_t hmask    = 0x8000'0000'0000'0000ull; // mask for the bottom half
 	static constexpr uint64_t fmask    = 0x7FFF'FFFF'FFFF'FFFFull; // mask for the bottom half
 	static constexpr uint64_t hfmask   = 0xFFFF'FFFF'FFFF'FFFFull; // mast for the bottom half
 	static constexpr uint64_t fmsb     = 0x8000'0000'0000'0000ull;
